@@ -26,7 +26,7 @@ func c04Prop(st *CaseStats, fam int) func(t *rapid.T) {
 		if fam == FamBig {
 			cfg.MaxIn = 2
 			depth = rapid.SampledFrom([]int{0, 0, 1}).Draw(t, "depthBig")
-		} else if fam == FamSmall || fam == FamMid {
+		} else if fam == FamSmall || fam == FamMid || fam == FamAligned {
 			depth = rapid.SampledFrom([]int{0, 1, 1, 2, 3}).Draw(t, "depth")
 		} else {
 			cfg.MaxIn = 2
@@ -46,6 +46,16 @@ func c04Prop(st *CaseStats, fam int) func(t *rapid.T) {
 		bs, err := Persist(c.Seg)
 		if err != nil {
 			t.Fatalf("case %s %s: %v", sc, c.Desc, err)
+		}
+		// with and without a (never closed) close channel: the same file
+		for _, ch := range []chan struct{}{nil, make(chan struct{})} {
+			other, err := PersistCh(c.Seg, ch)
+			if err != nil {
+				t.Fatalf("case %s %s: WriteTo(close channel nil=%v): %v", sc, c.Desc, ch == nil, err)
+			}
+			if !bytes.Equal(other, bs) {
+				t.Fatalf("case %s %s:\n  WriteTo with close channel nil=%v writes a different file (%d vs %d bytes, first difference at %d)", sc, c.Desc, ch == nil, len(other), len(bs), firstDiff(other, bs))
+			}
 		}
 		mem, err := LoadMem(bs)
 		if err != nil {
@@ -168,4 +178,16 @@ func TestC04Big(t *testing.T) {
 	st := NewStats("C04Big", c04Rule)
 	defer st.Flush()
 	rapid.Check(t, c04Prop(st, FamBig))
+}
+
+func TestC04Aligned(t *testing.T) {
+	st := NewStats("C04Aligned", c04Rule)
+	defer st.Flush()
+	rapid.Check(t, c04Prop(st, FamAligned))
+}
+
+func TestC04Counts(t *testing.T) {
+	st := NewStats("C04Counts", c04Rule)
+	defer st.Flush()
+	rapid.Check(t, c04Prop(st, FamCounts))
 }
